@@ -87,6 +87,10 @@ def run(prog: Program, rep: Report, tier: str):
     rep.not_decided += ["equality of the two whole runs for every geometry, budget and config set (only the derivation of the "
                         "checkpoint, the initialisation of every progress-carrying local and the agreement of the epoch length "
                         "between constructor and loop are decided)"]
+    if R.main_iter is None and R.chunk_source_node is not None:
+        from .c04 import chunked_main_loop
+        chunked_main_loop(rep, R, "C06.1")
+        return
     rep.require(R.main_iter is not None, "anchor-missing: loop over self.main_sampler in _training_loop")
 
     # ---- 1. unit-consistent initialisation ---------------------------------------------------------------------
